@@ -6,9 +6,11 @@ package ssa
 
 import (
 	"fmt"
+	"go/importer"
 	"go/token"
 	"go/types"
 	"os"
+	"strings"
 	"testing"
 
 	"github.com/goplus/gogen/packages"
@@ -25,7 +27,13 @@ func TestZZVerifEmit(t *testing.T) {
 	prog.SetRuntime(func() *types.Package {
 		fset := token.NewFileSet()
 		imp := packages.NewImporter(fset)
-		pkg, _ := imp.Import(PkgRuntime)
+		if pkg, _ := imp.Import(PkgRuntime); pkg != nil && pkg.Scope().Lookup("structtype") != nil {
+			return pkg
+		}
+		pkg, err := importer.For("source", nil).Import(PkgRuntime)
+		if err != nil {
+			t.Fatal(err)
+		}
 		return pkg
 	})
 	pkg := prog.NewPackage("zz", "zz")
@@ -101,7 +109,75 @@ func TestZZVerifEmit(t *testing.T) {
 			})
 		}
 	}
-	if err := os.WriteFile(out, []byte(pkg.String()), 0o644); err != nil {
+	// type assertions: x.(T) and v, ok := x.(T) for interface operands of both
+	// representations and asserted types of every kind the lowering distinguishes
+	var taInfo strings.Builder
+	{
+		tpkg := types.NewPackage("zz", "zz")
+		errT := types.Universe.Lookup("error").Type()
+		anyT := types.NewInterfaceType(nil, nil)
+		anyT.Complete()
+		strSig := types.NewSignatureType(nil, nil, nil, nil, types.NewTuple(types.NewVar(0, nil, "", strT)), false)
+		stringerI := types.NewInterfaceType([]*types.Func{types.NewFunc(0, tpkg, "String", strSig)}, nil)
+		stringerI.Complete()
+		stringer := types.NewNamed(types.NewTypeName(0, tpkg, "Stringer", nil), stringerI, nil)
+		emptyNamed := types.NewNamed(types.NewTypeName(0, tpkg, "Empty", nil), anyT, nil)
+		namedInt := types.NewNamed(types.NewTypeName(0, tpkg, "N", nil), types.Typ[types.Int], nil)
+		structT := types.NewStruct([]*types.Var{types.NewField(0, tpkg, "A", i64, false)}, nil)
+		fnT := types.NewSignatureType(nil, nil, nil, nil, nil, false)
+		srcs := []struct {
+			name string
+			t    types.Type
+			rep  string
+		}{{"any", anyT, "eface"}, {"error", errT, "iface"}, {"Stringer", stringer, "iface"}}
+		dsts := []struct {
+			name string
+			t    types.Type
+		}{{"any", anyT}, {"Empty", emptyNamed}, {"error", errT}, {"Stringer", stringer}, {"int", types.Typ[types.Int]}, {"string", strT},
+			{"ptr", types.NewPointer(i64)}, {"struct", structT}, {"array", types.NewArray(i64, 2)}, {"N", namedInt}, {"func", fnT}, {"slice", sliceT}}
+		for _, sc := range srcs {
+			for _, ds := range dsts {
+				for _, commaOk := range []bool{true, false} {
+					sc, ds, commaOk := sc, ds, commaOk
+					mode := "must"
+					if commaOk {
+						mode = "ok"
+					}
+					name := fmt.Sprintf("typeassert__%s__%s__%s", sc.name, ds.name, mode)
+					func() {
+						defer func() {
+							if r := recover(); r != nil {
+								fmt.Fprintf(os.Stderr, "ZZCASE-PANIC %s: %v\n", name, r)
+							}
+						}()
+						params := types.NewTuple(types.NewVar(0, nil, "x", sc.t))
+						res := types.NewTuple(types.NewVar(0, nil, "", ds.t))
+						if commaOk {
+							res = types.NewTuple(types.NewVar(0, nil, "", ds.t), types.NewVar(0, nil, "", types.Typ[types.Bool]))
+						}
+						fn := pkg.NewFunc(name, types.NewSignatureType(nil, nil, nil, params, res, false), InGo)
+						b := fn.MakeBody(1)
+						at := prog.Type(ds.t, InGo)
+						r := b.TypeAssert(fn.Param(0), at, commaOk)
+						b.Return(r)
+						b.EndBuild()
+						kind := "concrete"
+						switch {
+						case fn.Param(0).RawType() == at.RawType():
+							kind = "same"
+						case types.IsInterface(ds.t):
+							kind = "iface"
+						case at.kind == vkClosure:
+							kind = "closure"
+						}
+						desc, _ := prog.abi.TypeName(at.raw.Type)
+						fmt.Fprintf(&taInfo, "; ZZTA fn=%s kind=%s src=%s desc=%s\n", name, kind, sc.rep, desc)
+					}()
+				}
+			}
+		}
+	}
+	if err := os.WriteFile(out, []byte(pkg.String()+"\n"+taInfo.String()), 0o644); err != nil {
 		t.Fatal(err)
 	}
 }
